@@ -2,6 +2,7 @@ import Carquet.Util
 import Driver.Ops.Alloc
 import Driver.Ops.Bloom
 import Driver.Ops.Crc
+import Driver.Ops.Cursor
 import Driver.Ops.Delta
 import Driver.Ops.Lz4
 import Driver.Ops.Par
@@ -21,6 +22,7 @@ def handlers : List (Line → Option Verdict) :=
   [ Driver.Ops.Alloc.handle,
     Driver.Ops.Bloom.handle,
     Driver.Ops.Crc.handle,
+    Driver.Ops.Cursor.handle,
     Driver.Ops.Delta.handle,
     Driver.Ops.Lz4.handle,
     Driver.Ops.Par.handle,
